@@ -33,6 +33,14 @@ static Val run_range(const Val &c)
         Val second = obs(copy);
         return (c.at(7).asInt() & 2) ? second : first;
     }
+    case 7: {   // default-constructed objects around an assignment: a fresh Range() is what it always is
+        Range x(c.at(1).asInt(), c.at(2).asInt(), c.at(3).asInt());
+        Range d1; d1 = x; (void)obs(d1);
+        Range d2;
+        Range d3; d3 = Range(QString::fromLatin1("1-2"), 10);
+        Range d4;
+        return (c.at(4).asInt() & 1) ? obs(d4) : obs(d2);
+    }
     case 6: return obs(Range(QString::fromUtf8(c.at(1).asBytes()), c.at(2).asInt()));      // the string given as UTF-8 (digits of other scripts)
     case 5: {   // the same construction while other threads build ranges of their own (the class is a value class: reentrant)
         QString str = QString::fromLatin1(c.at(1).asBytes());
